@@ -1,5 +1,7 @@
 import Driver.Proto
 import TongoModel.Json
+import TongoModel.JsonCell
+import TongoModel.CellFmt
 /-! Line handlers for property C20 (JSON forms). Value / answer syntax: see harness/cmd/vh/c20.go. -/
 namespace Driver
 open Tongo Tongo.Json Tongo.Dec
@@ -80,6 +82,10 @@ private def codecOf : List String → Option (Codec × List String)
       some (⟨fun | [v] => v.toNat?.map printMagic | _ => none, fun p => outMap toString (parseMagic p)⟩, rest)
   | "bitstr" :: rest =>
       some (⟨fun | [b] => (binArg b).map printBitString | _ => none, fun p => outMap binOut (parseBitString p)⟩, rest)
+  | "cell" :: rest =>
+      some (⟨fun _ => none, fun p => outMap (fun (t, r) => CellFmt.canonString t [r]) (parseCellJson p)⟩, rest)
+  | "anycell" :: rest =>
+      some (⟨fun _ => none, fun p => outMap (fun (t, r) => CellFmt.canonString t [r]) (parseCellJson p)⟩, rest)
   | "addr" :: rest =>
       some (⟨fun | [a] => (addrArg a).map printMsgAddr | _ => none, fun p => outMap addrOut (parseMsgAddr p)⟩, rest)
   | _ => none
@@ -97,6 +103,24 @@ def resolve : List String → Option (Codec × List String)
   | "maybe" :: rest => (codecOf rest).map fun (c, r) => (maybeCodec c, r)
   | toks => codecOf toks
 
+def opOut : Option Nat → String
+  | none => "-"
+  | some n => toString n
+
+/-- the envelope with the cell codec of the BOC model; every other non-empty SumType is reported by name (the
+registry of known body types lives on the Go side, the Go executor reports the same shape) -/
+def envelopeLine (p : Str) : Outcome String :=
+  match unmarshalEnvelope p with
+  | .err e => .err e
+  | .panic e => .panic e
+  | .ok r =>
+    if r.sumType = [] then .ok s!"empty {opOut r.opCode}"
+    else if r.sumType = unknownName then
+      match r.value with
+      | none => .err "no value"
+      | some raw => outMap (fun (t, root) => s!"unknown {opOut r.opCode} {CellFmt.canonString t [root]}") (parseCellJson raw)
+    else .ok s!"named {hexOut (bytesOfStr r.sumType)} {opOut r.opCode}"
+
 def outcomeLine : Outcome String → String
   | .ok s => "ok " ++ s
   | .err _ => "err"
@@ -110,6 +134,11 @@ def opsC20 : List (String × Handler) := [
       | none => "bad-op"
     | none => "bad-op"),
   ("json.parse", fun toks =>
+    match toks with
+    | ["envelope", _, doc] => (match docArg doc with
+      | some p => outcomeLine (envelopeLine p)
+      | none => "bad-op")
+    | _ =>
     match resolve toks with
     | some (c, [doc]) => match docArg doc with
       | some p => outcomeLine (c.parse p)
